@@ -18,8 +18,9 @@ import subprocess
 
 ROOT = os.path.dirname(os.path.dirname(os.path.abspath(__file__)))
 CRATE = os.path.join(ROOT, "harness_c19")
-TARGET = os.path.join(ROOT, ".cache", "target", "c19")
-REPO = "/repo"
+# VERIF_C19_REPO: a scratch copy of /repo for mutation testing (the check itself always uses /repo)
+REPO = os.environ.get("VERIF_C19_REPO", "/repo")
+TARGET = os.path.join(ROOT, ".cache", "target", "c19" if REPO == "/repo" else "c19-scratch")
 
 
 def hexs(s):
@@ -70,6 +71,10 @@ def spec_snake(name):
 
 def spec_pascal(name):
     return "".join(w[0].upper() + w[1:].lower() for w in spec_words(name))
+
+
+def G_unraw(ident):
+    return unraw(ident)
 
 
 def unraw(ident):
@@ -244,6 +249,7 @@ def junk_attr(rng):
 
 def gen_types(rng, n, classes=()):
     types = []
+    method_idents = set()   # the model's method environment is keyed by type identifier
     for tid in range(n):
         r = rng.random()
         kind = "enum" if r < 0.62 else "unit" if r < 0.80 else "edef"
@@ -251,6 +257,11 @@ def gen_types(rng, n, classes=()):
         ident = rand_ident(rng, "type")
         if "raw_ident" in classes and rng.random() < 0.08:
             ident = "r#" + rng.choice(["Type", "Match", "Struct", "Loop"])
+        if kind == "edef":
+            # left out (reported as a candidate): #[enum_def] makes an identifier out of snake_case(struct name), so a
+            # struct called _007Ab makes the attribute macro panic ("007ab" is not a valid identifier)
+            while not re.match(r"_*[A-Za-z]", G_unraw(ident)):
+                ident = rand_ident(rng, "type")
         t["ident"] = ident
         if kind in ("enum", "unit"):
             t["static"] = rng.random() < 0.4
@@ -290,7 +301,7 @@ def gen_types(rng, n, classes=()):
                         else:
                             invalid_budget -= 1
                     var["attrs"].append(rename_attr(rng, s, None))
-                elif r < 0.40 and invalid_budget > 0:
+                elif r < 0.40 and invalid_budget > 0 and ident not in method_idents:
                     invalid_budget -= 1
                     m = rng.choice(METHOD_NAMES)
                     t["methods"].setdefault(m, rng.choice(METHOD_RETS))
@@ -309,6 +320,8 @@ def gen_types(rng, n, classes=()):
             if not vs:
                 vs.append({"ident": "Only", "fields": ("u", 0), "attrs": [], "inner": None})
             t["variants"] = vs
+            if t["methods"]:
+                method_idents.add(ident)
         elif kind == "edef":
             t["static"] = True
             t["prefix"] = rng.choice([None, None, "", "P", "Pre_", "My"])
@@ -434,7 +447,8 @@ def rust_type_path(types, tid):
 
 
 def rust_typedef(types, t):
-    L = ["pub mod t%d {" % t["tid"]]
+    # the derives expand to method calls (self.unquoted(..), delegated.as_str()) that need the traits in scope
+    L = ["pub mod t%d {" % t["tid"], "    use sea_query::{Iden as _, IdenStatic as _};"]
     if t["kind"] == "edef":
         args = []
         for k in ("prefix", "suffix", "table_name"):
@@ -541,6 +555,18 @@ fn row<T: Iden>(v: T, as_str: Option<&'static str>, dbg: Option<String>) {
 '''
 
 
+PRELUDE += r'''fn row_s<T: IdenStatic>(v: T) {
+    let a = IdenStatic::as_str(&v);
+    row(v, Some(a), None);
+}
+fn row_e<T: IdenStatic + std::fmt::Debug>(v: T) {
+    let a = IdenStatic::as_str(&v);
+    let d = format!("{:?}", v);
+    row(v, Some(a), Some(d));
+}
+'''
+
+
 def rust_source(types, queries):
     """queries: list of (tid, value)"""
     L = [PRELUDE]
@@ -553,9 +579,9 @@ def rust_source(types, queries):
             t = types[tid]
             e = rust_value(types, tid, value)
             if t["kind"] == "edef":
-                L.append("    { let v = %s; row(v, Some(IdenStatic::as_str(&v)), Some(format!(\"{:?}\", v))); }" % e)
+                L.append("    row_e(%s);" % e)
             elif t["static"]:
-                L.append("    { let v = %s; row(v, Some(IdenStatic::as_str(&v)), None); }" % e)
+                L.append("    row_s(%s);" % e)
             else:
                 L.append("    row(%s, None, None);" % e)
         L.append("}")
@@ -596,7 +622,7 @@ def build(source, timeout=3000):
     os.makedirs(os.path.join(CRATE, "src"), exist_ok=True)
     os.makedirs(TARGET, exist_ok=True)
     with open(os.path.join(CRATE, "Cargo.toml"), "w") as f:
-        f.write(CARGO_TOML)
+        f.write(CARGO_TOML.replace('path = "/repo"', 'path = "%s"' % REPO))
     with open(os.path.join(CRATE, "src", "main.rs"), "w") as f:
         f.write(source)
     subprocess.run(["cp", os.path.join(REPO, "Cargo.lock"), os.path.join(CRATE, "Cargo.lock")], check=False)
